@@ -33,6 +33,9 @@ CHECKS = {
  'C12': dict(level='exploration', technique='differential property-based testing: run with a failing task + rerun (reset on/off, repeated) or skip, compared with the run that had the new outcome from the start; post-command state invariants; negative cases',
    text='Generated programs (direct, nested, with-items, joins downstream) whose assignment lets exactly one task fail unhandled are run to the ERROR end; the failed task is rerun through the engine client with a new outcome (reset on/off, optionally failing once more first) or skipped, and the run continues under a second drawn schedule. Right after the command the task, its workflow and every enclosing workflow and parent task must be RUNNING (SKIPPED for skip); at quiescence the canonical rows must equal those of the run in which the task produced the new result the first time (reference run checked for order independence); skip must follow on-success; a SUCCESS task must not be rerunnable.',
    design='3 C12', note=ASSUME + '; with-items tasks with a concurrency limit are not rerun by the generator (known finding withitems-rerun-concurrency, replayed by a sub-check)'),
+ 'C06': dict(level='fault_enumeration', technique='fault-injection property-based testing: generated duplicate/redelivery plans over generated runs (differential against the duplicate-free run, per-delivery row equality) plus generated executor cases against the real DefaultExecutor',
+   text='Engine part: generated programs (direct, nested, with-items, asynchronous actions, optional pauses of actions/workflows) run under drawn schedules with a drawn plan that duplicates action results, start_task requests and the id-carrying start_workflow request (1-2 extra copies; delivered immediately, later or after the run went quiet). Every duplicate delivery must leave all execution rows unchanged (it may be rejected with any exception), no action execution may be dispatched twice, and the canonical final rows must equal the duplicate-free run. Executor part: DefaultExecutor.run_action with generated (redelivered, safe_rerun, action returning value/Result/error/raising/async, engine client ok / Mistral error / bus error): an unsafe redelivered action is not run and reported once as error, at most one result is reported per run.',
+   design='3 C06', note=ASSUME + '; redelivery of the message bus is modelled by the plan (a copy is delivered after its original)'),
 }
 NA = []
 def main():
